@@ -279,6 +279,11 @@ fn fixtures(ctx: &mut Ctx) -> Vec<Fix> {
         gen_fixture(&mut rng, "ecdsa-p256-v4", KeyVersion::V4, KeyType::ECDSA(ECCCurve::P256), vec![Sha256], 1),
         gen_fixture(&mut rng, "ed448-v6", KeyVersion::V6, KeyType::Ed448, vec![Sha512], 2),
         gen_fixture(&mut rng, "rsa2048-v4", KeyVersion::V4, KeyType::Rsa(2048), vec![Sha256], 2),
+        // the remaining signature algorithms (each has its own verify arm and its own digest fitting)
+        gen_fixture(&mut rng, "dsa2048-v4", KeyVersion::V4, KeyType::Dsa(pgp::composed::DsaKeySize::B2048), vec![Sha256], 2),
+        gen_fixture(&mut rng, "ecdsa-p384-v4", KeyVersion::V4, KeyType::ECDSA(ECCCurve::P384), vec![Sha384], 2),
+        gen_fixture(&mut rng, "ecdsa-p521-v4", KeyVersion::V4, KeyType::ECDSA(ECCCurve::P521), vec![Sha512], 2),
+        gen_fixture(&mut rng, "ecdsa-secp256k1-v4", KeyVersion::V4, KeyType::ECDSA(ECCCurve::Secp256k1), vec![Sha256], 2),
     ];
     if thorough {
         for f in v.iter_mut() {
